@@ -371,6 +371,22 @@ PURITY_AUDIT = {
     ("ttLib/tables/sbixGlyph.py", "Glyph.compile"): {"gid": "derived from glyph name", "rawdata": "cached compiled bytes"},
     ("ttLib/tables/sbixStrike.py", "Strike.compile"): {"bitmapData": "cached compiled bytes", "data": "cached compiled bytes", "glyphDataOffsets": "derived offsets"},
 }
+# (module, helper method) -> {attr: reason}; "*" covers every attribute the helper stores
+HELPER_PURITY_AUDIT = {
+    ("ttLib/tables/O_S_2f_2.py", "updateFirstAndLastCharIndex"): {"*": "derived from cmap, recomputed only when recalc is requested"},
+    ("ttLib/tables/_g_l_y_f.py", "expand"): {"*": "lazy decode of the glyph's own bytes (same content, other form)"},
+    ("ttLib/tables/_g_l_y_f.py", "decompileComponents"): {"*": "lazy decode (part of expand)"},
+    ("ttLib/tables/_g_l_y_f.py", "decompileCoordinates"): {"*": "lazy decode (part of expand)"},
+    ("ttLib/tables/_g_l_y_f.py", "recalcBounds"): {"*": "derived bounding box, recomputed when recalcBBoxes is on"},
+    ("ttLib/tables/_g_l_y_f.py", "tryRecalcBoundsComposite"): {"*": "derived bounding box (composite fast path)"},
+    ("ttLib/tables/_h_h_e_a.py", "recalc"): {"*": "derived extents, recomputed when recalcBBoxes is on"},
+    ("ttLib/tables/_v_h_e_a.py", "recalc"): {"*": "derived extents, recomputed when recalcBBoxes is on"},
+    ("ttLib/tables/_m_a_x_p.py", "recalc"): {"*": "derived maxima, recomputed when recalcBBoxes is on"},
+    ("ttLib/tables/_l_o_c_a.py", "set"): {"locations": "derived glyph offsets (set([]) only when the table was never filled)"},
+    ("ttLib/tables/otTables.py", "_getClassRanges"): {"classDefs": "an absent mapping becomes the empty mapping (same content)"},
+    ("ttLib/tables/ttProgram.py", "_disassemble"): {"assembly": "cached other form of the same program"},
+    ("ttLib/tables/ttProgram.py", "_assemble"): {"bytecode": "cached other form of the same program"},
+}
 PURITY_METHODS = ("compile", "preWrite", "toXML", "toXML2", "write", "xmlWrite", "getData", "getAllData", "_doneWriting", "writeData", "writeArray")
 
 
@@ -415,6 +431,28 @@ def f11_compile_purity(ctx, repo):
             for a in sorted(st):
                 ok = a in aud
                 ctx.ob("F11", f.where, f"self.{a} stored", ok, ("audited: " + aud[a]) if ok else "compile/dump path writes a new attribute on the table object (saving would change the font)")
+    # F11h: the same obligation for the helper methods a compile / dump method calls on its own object (two levels): a
+    # store hidden in `self.encode_format_2_0()` changes the font by saving it just as one in compile() itself (K50)
+    from ..core import private_callees
+
+    ctx.rule("F11h", "helper methods that compile/preWrite/toXML call on their own object store only audited attributes on it: recomputed derived fields, lazily decoded content, cached forms of the same content", floor=20)
+    NOT_HELPERS = ("decompile", "fromXML", "__init__", "ensureDecompiled", "postRead", "read", "xmlRead", "decompileActions")
+    seen_h = set()
+    for rel in sorted(repo.rels()):
+        if not rel.startswith(("ttLib/", "cffLib/")) or rel.startswith("ttLib/woff2.py"):
+            continue
+        mod = repo.mod(rel)
+        for q, f in sorted(mod.funcs.items()):
+            if f.node.name not in PURITY_METHODS or f.cls is None:
+                continue
+            for h in private_callees(repo, f, depth=2):
+                if h.cls is None or h.node is f.node or h.node.name in PURITY_METHODS or h.node.name in NOT_HELPERS or id(h.node) in seen_h:
+                    continue
+                seen_h.add(id(h.node))
+                aud = HELPER_PURITY_AUDIT.get((h.mod.rel, h.node.name), {})
+                for a in sorted(self_stores(h.node)):
+                    ok = a in aud or "*" in aud
+                    ctx.ob("F11h", h.where, f"self.{a} stored (reached from {q.split('#')[0]})", ok, ("audited: " + (aud.get(a) or aud.get("*"))) if ok else "a helper on the compile/dump path writes an attribute on the table object (saving would change the font)")
     # BaseTable.compile: a Format attribute that preWrite added is removed again before the normal return,
     # and the converters write into a copy of __dict__ (or preWrite's dict), never into self
     ob = repo.mod("ttLib/tables/otBase.py")
